@@ -88,11 +88,13 @@ def main():
     assert not out.strip(), out
     meta["checks"] = results
     meta["detected_by"] = [c for c, r in results.items() if r["exit"] != 0]
-    meta["needs"] = ""
-    for line in notes.splitlines():
-        if "need" in line.lower():
-            meta["needs"] = line.strip()[:400]
-            break
+    import re
+    mm = re.search(r'(?im)^#+.*needs.*$\n+((?:.+\n)+)', notes)
+    meta["needs"] = " ".join(mm.group(1).split())[:600] if mm else ""
+    sp = os.path.join(ROOT, "seeded", "SUMMARY.json")
+    if os.path.exists(sp):
+        meta["what"] = json.load(open(sp)).get(f"{pid}-{var}", "")
+    meta["breaks_property"] = pid
     shutil.copy(f"{stash}/{var}/patch.diff", os.path.join(dst, "patch.diff"))
     for d in demos:
         shutil.copy(f"{stash}/{var}/{d}", os.path.join(dst, d if d == "demo.sh" else d + ".txt"))
